@@ -491,6 +491,12 @@ def extra_checks(tier, rng):
     out = []
     for lo in range(0, len(cases), 25):
         chunk = cases[lo:lo + 25]
+        # a SIGINT taken by the reactor is queued with callFromThread and may only be acted upon during the
+        # NEXT run of the same reactor: keep at most one such case per process, as its last case
+        kills = [c for c in chunk if c["kill"]]
+        for c in kills[1:]:
+            c["kill"] = False
+        chunk = [c for c in chunk if not c["kill"]] + kills[:1]
         p = subprocess.run([sys.executable, "-c", REAL, json.dumps(chunk)], capture_output=True, text=True, env=env,
                            timeout=300)
         try:
